@@ -473,6 +473,77 @@ def hash_sees_every_field(chk, program, rule='HASH-DEPS'):
               expected='add_data is called while the message holds every field the generated decoder returned, in order', found='ok' if not bad else bad[:3],
               detail='' if not bad else 'a key field that is dropped or moved before the hash is computed changes the identity: the same device gets another hash, different devices the same')
 
+def hash_through_decoder(chk, program, rule='HASH-DEPS'):
+    """the hash a message gets is a function of the message alone -- its definition id and the raw values of its key fields -- not of what the
+    decoder saw before.  Decided on the interpreted decode path with network mapping on (under every option world): two definitions X and Y of one
+    PGN number with the key flags on different positions (X: key, non-key, key;  Y: non-key, key, non-key) are fed to one decoder in the orders
+    X,Y,X and Y,X,Y; whatever the call site binds to add_data's parameters is then handed to the interpreted add_data (hashlib modelled), and every
+    hash must equal the one the same message gets from a decoder that saw nothing else, which in turn must be the digest add_data alone computes
+    for it.  Not interpretable: no verdict, except when the call site binds an optional parameter of add_data that the stand-alone reading
+    (HASH-DEPS history) had to leave at its default -- then nothing has decided what that argument does to the hash, and the rule refuses."""
+    from . import absint as A
+    from . import rules_msg as RM
+    consts = module_consts(program)
+    sf, cf = facts_or_none(program)
+    fn = program.fn('decoder', f"{CLS}._call_decode_function")
+    ad = program.fn('message', 'NMEA2000Message.add_data')
+    extras = RM._defaulted(ad)
+    site_binds = []
+    for n in ast.walk(fn):
+        if isinstance(n, ast.Call) and isinstance(n.func, ast.Attribute) and n.func.attr == 'add_data':
+            names = [a.arg for a in ad.args.args][1:]
+            site_binds += [p_ for p_ in names[:len(n.args)] if p_ in extras] + [k.arg for k in n.keywords if k.arg in extras] + (['**'] if any(k.arg is None for k in n.keywords) else [])
+    d0 = next(d for d in program.db.defs if not d.group.complex and d.pgn != consts['ISO_CLAIM_PGN'] and len(d.group.defs) == 1)
+    X, Y = d0.id, d0.id + 'Other'
+    def fields(kind):
+        pk = (True, False, True) if kind == X else (False, True, False)
+        return [RM._hfld(A, i + 1, pk[i], (5, 6, 7)[i]) for i in range(3)]
+    bad = []
+    runs = 0
+    try:
+        for world in option_worlds(program):
+            def decoder():
+                return DecodePath(program, runtime_attrs(program, sf, cf, consts, [], []), consts, extra_self=dict(world, build_network_map=True),
+                                  iso=Stub(name=12345, manufacturer_code='Garmin'))
+            hi = RM._HashInterp(program)
+            def one(dp, kind):
+                r = dp.feed(d0.pgn, kind, src=7, fields=fields(kind))
+                if r['status'] != 'returned' or r.get('add_data') is None:
+                    raise A.Unknown('the message was not returned through add_data')
+                b = dict(r['add_data'])
+                b.pop('timestamp', None); b.pop('raw_can_data', None)
+                m = r['msg']
+                m.attrs.setdefault('description', A.AStr([('lit', 'descr')])); m.attrs.setdefault('ttl', None)
+                return hi.hash_of(m, b, tag=kind)
+            alone = {k: one(decoder(), k) for k in (X, Y)}
+            ref = {}
+            for k in (X, Y):
+                m = A.AObj(id=A.AStr([('lit', k)]), PGN=A.AInt(d0.pgn), fields=A.AList(fields(k)), hash=None, description=A.AStr([('lit', 'descr')]), ttl=None)
+                ref[k] = RM._HashInterp(program).hash_of(m, tag=k)
+            for k in (X, Y):
+                runs += 1
+                if alone[k] != ref[k]:
+                    bad.append(f"options {world or 'default'}: a message of {k} alone gets {alone[k][:70]}, add_data by itself computes {ref[k][:70]}")
+            for order in ((X, Y, X), (Y, X, Y)):
+                dp = decoder()
+                for i, k in enumerate(order):
+                    runs += 1
+                    h = one(dp, k)
+                    if h != alone[k]:
+                        bad.append(f"options {world or 'default'}: history {' '.join('X' if q == X else 'Y' for q in order[:i + 1])} (X keys at 1,3; Y key at 2; one PGN number): "
+                                   f"the last message gets {h[:70]}, a decoder that saw only it gives {alone[k][:70]}")
+    except (A.Unknown, A.RaiseSignal, teval.EvalUnknown, KeyError, AttributeError, TypeError, AnalysisError, StopIteration, IndexError) as u:
+        if site_binds:
+            chk.unknown(rule, '_call_decode_function::hash-inputs-bound-at-the-call-site', f"the call site binds add_data's optional {sorted(set(site_binds))} and the decode path is not interpretable: "
+                        f"{type(u).__name__}: {u}"[:200], DEC, fn.lineno)
+        else:
+            chk.unit('hash_through_decoder_not_interpretable', f"{type(u).__name__}: {u}"[:160])
+        return
+    chk.unit('hash_decoder_histories', runs)
+    chk.check(not bad, rule, '_call_decode_function::hash-is-a-function-of-the-message-alone', file=DEC, line=fn.lineno, func='_call_decode_function',
+              expected='every message gets the hash add_data computes from its own id and key fields, whatever the decoder decoded before', found='ok' if not bad else bad[:3],
+              detail='' if not bad else 'something the decoder remembers (key positions, a digest, a prefix) is keyed more coarsely than the definition: two devices share a hash or one device gets two')
+
 class DecodePath:
     """`_decode` and what it calls, run by the abstract interpreter on one decoder object: the configuration is given as attribute values
     (as make_model takes them), messages are fed one after the other with stand-in generated decoders, and after each the observable effects are
